@@ -8,8 +8,31 @@ import (
 var bech32HRP = map[string]string{"acc": "cosmos", "val": "cosmosvaloper", "cons": "cosmosvalcons"}
 
 func (ex *Exec) newOpq(desc string, args []Value) *OpqStr {
+	var sb strings.Builder
+	sb.WriteString(desc + "|")
+	key := ""
+	okAll := true
+	for _, a := range args {
+		if !ex.keyOf(&sb, a, 0) {
+			okAll = false
+			break
+		}
+	}
+	if okAll {
+		key = sb.String()
+		if o, ok := ex.opqByKey[key]; ok {
+			return o
+		}
+	}
 	ex.opqCount++
-	return &OpqStr{ID: ex.opqCount, Desc: desc, Args: args}
+	o := &OpqStr{ID: ex.opqCount, Desc: desc, Args: args, Key: key}
+	if key != "" {
+		if ex.opqByKey == nil {
+			ex.opqByKey = map[string]*OpqStr{}
+		}
+		ex.opqByKey[key] = o
+	}
+	return o
 }
 
 func encLen(e *Enc) int {
@@ -296,6 +319,15 @@ func (ex *Exec) strEq(a, b Str) *Term {
 		if a.Opq != nil && b.Opq != nil {
 			if a.Opq.ID == b.Opq.ID {
 				return f.True
+			}
+			if a.Opq.Desc == b.Opq.Desc && len(a.Opq.Args) == 1 && len(b.Opq.Args) == 1 {
+				switch a.Opq.Desc {
+				case "fmt:%x", "fmt:%X", "fmt:%d", "fmt:%s", "fmt:%v":
+					// a single-verb format is an injective text function of its argument
+					if e, ok := ex.tryDeepEq(a.Opq.Args[0], b.Opq.Args[0]); ok {
+						return e
+					}
+				}
 			}
 			if a.Opq.Desc == b.Opq.Desc && len(a.Opq.Args) == len(b.Opq.Args) {
 				// same deterministic text function: equal arguments give equal text
